@@ -243,7 +243,15 @@ inductive IsMerge : List (List Act) → List Act → Prop where
       ts[k]? = some (a :: rest) → IsMerge (ts.set k rest) m → IsMerge ts (a :: m)
 
 /-- [A] every clause holds after every merge of per-thread action sequences (bin operations are
-atomic actions of the model: a merged history is a history) -/
+atomic actions of the model: a merged history is a history).
+
+WHAT THIS ASSUMES ABOUT THE SOURCE: each `Act.alloc` / `Act.free` is ONE step — for `free` that
+includes the working-page test and the decision to return the page.  The theorem says nothing
+about a program that reads `bin->page_cursor` (or any other bin state) before `sba->lock` and acts
+on the stale value inside the lock; such a program is a different transition system (split step).
+The current source evaluates the test inside the locked part; this is checked textually at
+regeneration (`check_critical_sections`) and by the scheduled run of the real allocator under
+`detsched` (every single preemption at lock/unlock points, per size class). -/
 theorem c03_linearised (mt : Bool) (ts : List (List Act)) (m : List Act) (_hm : IsMerge ts m) :
     let s := run (init mt) m
     FreeListsClause s ∧ PartitionClause s ∧ DisjointClause s ∧ AllocCountClause s ∧ BytesActiveClause s ∧
